@@ -136,6 +136,11 @@ def eval (f : FsCfg) (s : Sys) (c : Call) : List String :=
       t (isDirAt w a && likeDeviates w a) "likeDeviates" ++
       t (existsPlain w a && !existsPlain w b && moveCollides w a b) "moveOntoUsedKey"
     | .open_ _ n => t (n == []) "emptyName"
+    | .cat n => t (f.c.emptyDecodeFails && (match liveRow w (clean n) with
+        | some r => (match fetchAt f.c w.tape r.recd r.blk with
+            | some (h, _) => h.size == 0 && (h.pax.get Gen.recSTFSRecordUncompressedSize).isNone
+            | none => false)
+        | none => false)) "emptyReadUnderCodec"
     | .symlink _ _ => ["symlinkCall"]
     | .hwriteString id _ => t (match s.getHandle id with
         | some h => h.bufClosed
